@@ -296,3 +296,469 @@ Section Seq.
         reflexivity.
   Qed.
 End Seq.
+
+(* ------------------------------------------------------------------------------------------ *)
+(* 2. the interleaving semantics: generic facts *)
+
+Definition state_of {B} (r : res B) : tower := match r with Ok _ t => t | Abort _ t => t end.
+
+(* Every action of p, executed while the thread holds `held`, takes t to a state related by G
+   (also when it aborts); K holds of (held locks, value) wherever p returns. *)
+Fixpoint guark {A} (G : list lock -> tower -> tower -> Prop) (held : list lock) (p : prog A)
+         (K : list lock -> A -> Prop) : Prop :=
+  match p with
+  | Ret a => K held a
+  | Acq l k => guark G (l :: held) k K
+  | Rel l k => guark G (remove_lock l held) k K
+  | Act B f k => (forall t, G held t (state_of (f t))) /\ forall b, guark G held (k b) K
+  end.
+
+Lemma guark_bind {A C} G (p : prog A) (g : A -> prog C) : forall held K,
+  guark G held (pbind p g) K <-> guark G held p (fun h a => guark G h (g a) K).
+Proof.
+  induction p as [a|l k IH|l k IH|B f k IH]; intros held K; cbn [pbind guark]; try apply IH; [tauto|].
+  split; intros [H1 H2]; (split; [exact H1|intros b; apply IH; apply H2]).
+Qed.
+
+Lemma guark_weaken {A} G (p : prog A) : forall held (K K' : list lock -> A -> Prop),
+  (forall h a, K h a -> K' h a) -> guark G held p K -> guark G held p K'.
+Proof.
+  induction p as [a|l k IH|l k IH|B f k IH]; intros held K K' HK; cbn [guark]; eauto.
+  intros [H1 H2]. split; [exact H1|]. intros b. eapply IH; eauto.
+Qed.
+
+Lemma guark_mono {A} (G G' : list lock -> tower -> tower -> Prop) (p : prog A) :
+  (forall h t t', G h t t' -> G' h t t') -> forall held K, guark G held p K -> guark G' held p K.
+Proof.
+  intros HG. induction p as [a|l k IH|l k IH|B f k IH]; intros held K; cbn [guark]; eauto.
+  intros [H1 H2]. split; [intros t; apply HG, H1|intros b; apply IH, H2].
+Qed.
+
+Definition ktrue {A} : list lock -> A -> Prop := fun _ _ => True.
+
+(* ---- lists ---- *)
+Lemma nth_error_set_nth_eq {A} (l : list A) i x y : nth_error l i = Some y -> nth_error (set_nth l i x) i = Some x.
+Proof. revert i. induction l as [|z l IH]; intros [|i]; cbn; try discriminate; auto. Qed.
+Lemma nth_error_set_nth_neq {A} (l : list A) i j x : i <> j -> nth_error (set_nth l i x) j = nth_error l j.
+Proof.
+  revert i j. induction l as [|z l IH]; intros [|i] [|j] H; cbn; try reflexivity; try congruence.
+  apply IH. congruence.
+Qed.
+Lemma length_set_nth {A} (l : list A) i x : length (set_nth l i x) = length l.
+Proof. revert i. induction l as [|z l IH]; intros [|i]; cbn; auto. Qed.
+Lemma nth_error_set_nth {A} (l : list A) i j x y :
+  nth_error (set_nth l i x) j = Some y -> (i = j /\ y = x) \/ (i <> j /\ nth_error l j = Some y).
+Proof.
+  intros H. destruct (Nat.eq_dec i j) as [E|E].
+  - subst j. destruct (nth_error l i) as [z|] eqn:Ez.
+    + rewrite (nth_error_set_nth_eq l i x z Ez) in H. left. split; congruence.
+    + exfalso. apply nth_error_None in Ez. assert (nth_error (set_nth l i x) i = None) by (apply nth_error_None; rewrite length_set_nth; exact Ez).
+      congruence.
+  - right. split; [exact E|]. rewrite nth_error_set_nth_neq in H by exact E. exact H.
+Qed.
+
+(* ---- one step of thread i, by cases ---- *)
+Lemma step_thread_cases c i c' :
+  step_thread c i = Some c' ->
+  exists th p, nth_error (cf_threads c) i = Some th /\ ct_st th = Running p /\
+  ( (exists l k, p = Acq l k /\ is_held c l = false /\ memN l (cf_poisoned c) = false /\
+       c' = mk_conf (cf_tower c) (cf_poisoned c)
+                    (set_nth (cf_threads c) i (mk_cthread (Running k) (l :: ct_held th) (l :: ct_trace th))))
+ \/ (exists l k, p = Acq l k /\ is_held c l = false /\ memN l (cf_poisoned c) = true /\
+       c' = die c i (mk_cthread (ct_st th) (l :: ct_held th) (l :: ct_trace th)) (cf_tower c) (TPoisoned l))
+ \/ (exists l k, p = Rel l k /\
+       c' = mk_conf (cf_tower c) (cf_poisoned c)
+                    (set_nth (cf_threads c) i (mk_cthread (Running k) (remove_lock l (ct_held th)) (ct_trace th))))
+ \/ (exists B (f : tower -> res B) k b t', p = Act B f k /\ f (cf_tower c) = Ok b t' /\
+       c' = mk_conf t' (cf_poisoned c) (set_nth (cf_threads c) i (mk_cthread (Running (k b)) (ct_held th) (ct_trace th))))
+ \/ (exists B (f : tower -> res B) k s t', p = Act B f k /\ f (cf_tower c) = Abort s t' /\
+       c' = die c i th t' (TOut (OAbort s))) ).
+Proof.
+  unfold step_thread. intros H.
+  destruct (nth_error (cf_threads c) i) as [th|] eqn:Eth; [|discriminate].
+  destruct (ct_st th) as [p|r] eqn:Est; [|discriminate].
+  exists th, p. split; [reflexivity|]. split; [exact Est|].
+  destruct p as [o|l k|l k|B f k]; [discriminate| | |].
+  - destruct (is_held c l) eqn:Eh; [discriminate|].
+    destruct (memN l (cf_poisoned c)) eqn:Ep; inversion H; subst.
+    + right. left. exists l, k. rewrite Est. auto.
+    + left. exists l, k. auto.
+  - inversion H; subst. right. right. left. exists l, k. auto.
+  - destruct (f (cf_tower c)) as [b t'|s t'] eqn:Ef; inversion H; subst.
+    + right. right. right. left. exists B, f, k, b, t'. auto.
+    + right. right. right. right. exists B, f, k, s, t'. auto.
+Qed.
+
+Lemma run_config_app c s1 s2 : run_config c (s1 ++ s2) = run_config (run_config c s1) s2.
+Proof. unfold run_config. apply fold_left_app. Qed.
+
+(* a property of configurations preserved by every step holds along every schedule *)
+Lemma run_config_inv (I : conf -> Prop) :
+  (forall c i c', I c -> step_thread c i = Some c' -> I c') ->
+  forall sched c, I c -> I (run_config c sched).
+Proof.
+  intros Hstep. induction sched as [|i sched IH]; intros c Hc; cbn; [exact Hc|].
+  apply IH. unfold sched_step. destruct (step_thread c i) as [c'|] eqn:E; [eapply Hstep; eauto|exact Hc].
+Qed.
+
+(* ---- thread-local guarantees hold of every step of every schedule ---- *)
+Definition tguar (G : list lock -> tower -> tower -> Prop) (th : cthread) : Prop :=
+  match ct_st th with Running p => guark G (ct_held th) p ktrue | Ended _ => True end.
+
+Lemma tguar_spawn G p : guark G [] p ktrue -> tguar G (spawn p).
+Proof. intros H. exact H. Qed.
+
+Lemma Forall_set_nth {A} (P : A -> Prop) l i x : Forall P l -> P x -> Forall P (set_nth l i x).
+Proof.
+  intros Hl Hx. revert i. induction Hl as [|y l Hy Hl IH]; intros [|i]; cbn; constructor; auto.
+Qed.
+
+Lemma Forall_nth_error {A} (P : A -> Prop) l i x : Forall P l -> nth_error l i = Some x -> P x.
+Proof. intros Hl Hn. rewrite Forall_forall in Hl. apply Hl. eapply nth_error_In; eauto. Qed.
+
+(* one step: the threads keep their guarantees, and the shared state moved by G under the locks the
+   stepping thread held (or did not move) *)
+Lemma step_guar G c i c' :
+  Forall (tguar G) (cf_threads c) -> step_thread c i = Some c' ->
+  Forall (tguar G) (cf_threads c') /\
+  (cf_tower c' = cf_tower c \/
+   exists th, nth_error (cf_threads c) i = Some th /\ G (ct_held th) (cf_tower c) (cf_tower c')).
+Proof.
+  intros Hall Hs. destruct (step_thread_cases c i c' Hs) as [th [p [Hn [Hst Hc]]]].
+  pose proof (Forall_nth_error _ _ _ _ Hall Hn) as Hth. unfold tguar in Hth. rewrite Hst in Hth.
+  destruct Hc as [[l [k [-> [_ [_ ->]]]]]|[[l [k [-> [_ [_ ->]]]]]|[[l [k [-> ->]]]|[[B [f [k [b [t' [-> [Hf ->]]]]]]]|[B [f [k [s [t' [-> [Hf ->]]]]]]]]]]];
+    cbn [cf_threads cf_tower die].
+  - split; [|left; reflexivity]. apply Forall_set_nth; [exact Hall|]. exact Hth.
+  - split; [|left; reflexivity]. apply Forall_set_nth; [exact Hall|exact I].
+  - split; [|left; reflexivity]. apply Forall_set_nth; [exact Hall|]. exact Hth.
+  - cbn [guark] in Hth. destruct Hth as [H1 H2]. split.
+    + apply Forall_set_nth; [exact Hall|]. unfold tguar. cbn. apply H2.
+    + right. exists th. split; [exact Hn|]. specialize (H1 (cf_tower c)). rewrite Hf in H1. exact H1.
+  - cbn [guark] in Hth. destruct Hth as [H1 _]. split.
+    + apply Forall_set_nth; [exact Hall|exact I].
+    + right. exists th. split; [exact Hn|]. specialize (H1 (cf_tower c)). rewrite Hf in H1. exact H1.
+Qed.
+
+(* THE invariance principle: a predicate on the shared state that every action of every thread
+   program preserves (whatever locks are held, also when the action aborts) holds in every state
+   of every schedule *)
+Theorem invariant_of_all_schedules (P : tower -> Prop) t ps :
+  Forall (fun p => guark (fun _ t t' => P t -> P t') [] p ktrue) ps -> P t ->
+  forall sched, P (cf_tower (run_config (init_config t ps) sched)).
+Proof.
+  intros Hps Ht sched.
+  set (G := fun (_ : list lock) t t' => P t -> P t').
+  assert (H : (fun c => P (cf_tower c) /\ Forall (tguar G) (cf_threads c)) (run_config (init_config t ps) sched)).
+  { apply run_config_inv.
+    - intros c i c' [HP Hall] Hs. destruct (step_guar G c i c' Hall Hs) as [Hall' Hmove]. split; [|exact Hall'].
+      destruct Hmove as [E|[th [_ Hg]]]; [rewrite E; exact HP|apply Hg; exact HP].
+    - split; [exact Ht|]. cbn [cf_threads init_config]. apply Forall_forall. intros th Hin.
+      apply in_map_iff in Hin. destruct Hin as [p [<- Hp]]. apply tguar_spawn.
+      rewrite Forall_forall in Hps. apply Hps. exact Hp. }
+  apply H.
+Qed.
+
+(* ---- mutual exclusion ---- *)
+Definition excl (c : conf) : Prop :=
+  forall i j thi thj l, nth_error (cf_threads c) i = Some thi -> nth_error (cf_threads c) j = Some thj ->
+                        i <> j -> holds thi l = true -> holds thj l = false.
+
+Lemma holds_remove l l' h : memN l' (remove_lock l h) = true -> memN l' h = true.
+Proof.
+  unfold remove_lock, memN. rewrite !existsb_exists. intros [x [Hx E]]. apply filter_In in Hx. exists x. tauto.
+Qed.
+
+Lemma is_held_false c l j th : is_held c l = false -> nth_error (cf_threads c) j = Some th -> holds th l = false.
+Proof.
+  unfold is_held. intros H Hn. destruct (holds th l) eqn:E; [|reflexivity].
+  assert (existsb (fun th => holds th l) (cf_threads c) = true) by (apply existsb_exists; exists th; split; [eapply nth_error_In; eauto|exact E]).
+  congruence.
+Qed.
+
+Lemma excl_step c i c' : excl c -> step_thread c i = Some c' -> excl c'.
+Proof.
+  intros Hex Hs. destruct (step_thread_cases c i c' Hs) as [th [p [Hn [Hst Hc]]]].
+  assert (Hgen : forall th', (forall l, holds th' l = true -> holds th l = true \/
+                                         (is_held c l = false)) ->
+                             excl (mk_conf (cf_tower c') (cf_poisoned c') (set_nth (cf_threads c) i th'))).
+  { intros th' Hsub a b tha thb l Ha Hb Hab Hl. cbn [cf_threads] in Ha, Hb.
+    apply nth_error_set_nth in Ha. apply nth_error_set_nth in Hb.
+    destruct Ha as [[Ea Eta]|[Hia Ha]], Hb as [[Eb Etb]|[Hib Hb]]; try congruence.
+    - subst a tha. destruct (Hsub l Hl) as [H|H]; [exact (Hex i b th thb l Hn Hb Hab H)|exact (is_held_false c l b thb H Hb)].
+    - subst b thb. destruct (holds th' l) eqn:E; [|reflexivity]. destruct (Hsub l E) as [H|H].
+      + rewrite (Hex i a th tha l Hn Ha (not_eq_sym Hab) H) in Hl. discriminate.
+      + rewrite (is_held_false c l a tha H Ha) in Hl. discriminate.
+    - exact (Hex a b tha thb l Ha Hb Hab Hl). }
+  destruct Hc as [[l [k [-> [Hfree [_ ->]]]]]|[[l [k [-> [Hfree [_ ->]]]]]|[[l [k [-> ->]]]|[[B [f [k [b [t' [-> [Hf ->]]]]]]]|[B [f [k [s [t' [-> [Hf ->]]]]]]]]]]];
+    cbn [die]; apply Hgen; cbn [holds ct_held]; intros l'.
+  - unfold memN. cbn [existsb]. intros H. apply orb_true_iff in H. destruct H as [H|H]; [|left; exact H].
+    apply N.eqb_eq in H. subst l'. right. exact Hfree.
+  - cbn. discriminate.
+  - intros H. left. eapply holds_remove; eauto.
+  - intros H. left. exact H.
+  - cbn. discriminate.
+Qed.
+
+Lemma excl_init t ps : excl (init_config t ps).
+Proof.
+  intros i j thi thj l Hi _ _ Hl. cbn [cf_threads init_config] in Hi.
+  apply nth_error_In, in_map_iff in Hi. destruct Hi as [p [<- _]]. discriminate.
+Qed.
+
+Lemma excl_run t ps sched : excl (run_config (init_config t ps) sched).
+Proof. apply run_config_inv; [intros; eapply excl_step; eauto|apply excl_init]. Qed.
+
+(* ------------------------------------------------------------------------------------------ *)
+(* 3. the structural induction done once: a guarantee G that the primitive actions of the thread
+   programs satisfy (under the locks they are executed with) is satisfied by every action of every
+   thread program.  Instances: lock_protects_data, referential integrity, ... *)
+
+Definition has (l : lock) (held : list lock) : Prop := memN l held = true.
+
+(* actions shared by requests and block events *)
+Record OblCommon (G : list lock -> tower -> tower -> Prop) (sc : script) : Prop := {
+  ob_refl : forall h t, G h t t;
+  ob_delete : forall h t us refund, has L_users h -> has L_db h -> G h t (state_of (gk_delete_appointments t us refund));
+  ob_mempool : forall h t p, has L_carrier h -> G h t (snd (in_mempool sc t p));
+  ob_send : forall h t tx, has L_carrier h -> G h t (snd (send_transaction sc t tx));
+  ob_add_tracker : forall h t uuid d p s, has L_carrier h -> has L_txindex h -> has L_db h -> G h t (r_add_tracker t uuid d p s)
+}.
+
+(* ... of the API requests *)
+Record OblApi (G : list lock -> tower -> tower -> Prop) : Prop := {
+  ob_set_user : forall h t u ui, has L_users h -> has L_db h -> G h t (p_set_user t u ui);
+  ob_new_user : forall h t u ui, has L_users h -> has L_db h -> amem (db_users t) u = false -> G h t (p_new_user t u ui);
+  ob_store_app : forall h t a, has L_db h -> G h t (state_of (w_store_appointment t a))
+}.
+
+(* ... of the block events *)
+Record OblChain (G : list lock -> tower -> tower -> Prop) : Prop := {
+  ob_forget : forall h t outd, has L_users h -> G h t (forget_users outd t);
+  ob_delete_users : forall h t outd, has L_db h -> G h t (db_delete_users t outd);
+  ob_gk_height : forall h t x, G h t (set_gk_height t x);
+  ob_w_height : forall h t x, G h t (set_w_height t x);
+  ob_w_cache : forall h t c, has L_cache h -> G h t (set_w_cache t c);
+  ob_car_height : forall h t x, has L_carrier h -> G h t (set_car_height t x);
+  ob_car_memo : forall h t, has L_carrier h -> G h t (set_car_memo t []);
+  ob_r_index : forall h t idx, has L_txindex h -> G h t (set_r_index t idx);
+  ob_check_conf : forall h le txs x t, has L_reorged h -> has L_db h -> G h t (state_of (check_conf_loop le txs x (db_trks t) t []));
+  ob_set_reorged : forall h t r, has L_reorged h -> G h t (set_reorged t r);
+  ob_trk_status : forall h t uuid x c, has L_carrier h -> has L_db h -> G h t (set_trk_status t uuid x c)
+}.
+
+Ltac has_tac := unfold has; vm_compute; reflexivity.
+
+Ltac norm_held :=
+  match goal with
+  | |- guark ?G ?h ?p ?K => let h' := eval vm_compute in h in change (guark G h' p K)
+  end.
+
+Ltac loop_hook := fail.
+
+Ltac walk_step :=
+  match goal with
+  | |- guark _ _ (match ?x with _ => _ end) _ => destruct x
+  | |- guark _ _ (if ?x then _ else _) _ => destruct x
+  | |- _ /\ _ => split
+  | |- forall _, _ => intro
+  | |- guark _ _ ?p _ =>
+      match p with
+      | context [match ?x with _ => _ end] => is_var x; destruct x
+      | context [if ?x then _ else _] => is_var x; destruct x
+      | context [if ?f ?x then _ else _] => is_var x; destruct (f x)
+      | context [if ?c then _ else _] => destruct c
+      | context [store_triggered_p _ _ _] => unfold store_triggered_p
+      | context [match ?x with _ => _ end] => destruct x
+      end
+  | |- guark _ _ (pbind _ _) _ => apply guark_bind
+  | |- _ => loop_hook
+  end.
+
+Ltac walk :=
+  repeat (cbn [guark pbind acq rel act rd wr panic reach_p add_update_user_p charge_p delete_apps_p authenticate_p expired_p
+                 gk_connect_p gk_disconnect_p send_p handle_breach_p reorged_p stale_p r_connect_p r_disconnect_p
+                 store_appointment_p store_triggered_p cache_section_p has_tracker_p add_pre_p add_finish add_appointment_p
+                 get_appointment_p w_connect_p w_disconnect_p register_p add_p get_p fst snd state_of];
+          try norm_held; try walk_step).
+
+Ltac kfin H :=
+  repeat match goal with b : unit |- _ => destruct b end;
+  try match goal with |- ?K ?h ?b => let h' := eval vm_compute in h in change (K h' b) end;
+  first [exact H | apply H].
+
+(* actions that only read (or abort without touching anything) *)
+Lemma st_reg_decide u bc t : state_of (reg_decide u bc t) = t.
+Proof. unfold reg_decide. destruct (gk_get t u); [destruct (u32_add _ _)|destruct (u32_add _ _)]; reflexivity. Qed.
+Lemma st_charge_user u t : state_of (charge_user u t) = t.
+Proof. unfold charge_user. destruct (gk_get t u); reflexivity. Qed.
+Lemma st_find_outdated h t : state_of (find_outdated h t) = t.
+Proof. unfold find_outdated. destruct (outdated_users _ _ _); reflexivity. Qed.
+Lemma st_index_lookup p t : state_of (index_lookup p t) = t.
+Proof. unfold index_lookup. destruct (ti_get _ _); [destruct (ti_get_height _ _)|]; reflexivity. Qed.
+Lemma st_load_stale uuid t : state_of (load_stale_tracker uuid t) = t.
+Proof. unfold load_stale_tracker. destruct (find_trk _ _); reflexivity. Qed.
+Lemma st_find_stale h t : state_of (find_stale h t) = t.
+Proof. unfold find_stale. destruct (u32_sub _ _); reflexivity. Qed.
+Lemma st_load_breached uuid t : state_of (load_breached uuid t) = t.
+Proof. unfold load_breached. destruct (find_app _ _); reflexivity. Qed.
+Lemma st_ask_mempool sc p t : state_of (ask_mempool sc p t) = snd (in_mempool sc t p).
+Proof. unfold ask_mempool. destruct (in_mempool sc t p); reflexivity. Qed.
+Lemma st_send_act sc tx t : state_of (send_act sc tx t) = snd (send_transaction sc t tx).
+Proof. unfold send_act. destruct (send_transaction sc t tx); reflexivity. Qed.
+Lemma st_store_new_user u ui t :
+  state_of (store_new_user u ui t) = if amem (db_users t) u then t else p_new_user t u ui.
+Proof. unfold store_new_user. destruct (amem (db_users t) u); reflexivity. Qed.
+Lemma st_update_cache b t :
+  state_of (update_cache b t) = match ti_update (w_cache t) b with Some c => set_w_cache t c | None => t end.
+Proof. unfold update_cache. destruct (ti_update _ _); reflexivity. Qed.
+Lemma st_update_index b t :
+  state_of (update_index b t) = match ti_update (r_index t) b with Some c => set_r_index t c | None => t end.
+Proof. unfold update_index. destruct (ti_update _ _); reflexivity. Qed.
+Lemma st_store_height set h s t :
+  state_of (store_height set h s t) = match u32_sub h 1 with Some h' => set t h' | None => t end.
+Proof. unfold store_height. destruct (u32_sub h 1); reflexivity. Qed.
+
+Section Structural.
+  Context (G : list lock -> tower -> tower -> Prop) (le : bool) (sc : script) (HC : OblCommon G sc).
+
+  Ltac leaf :=
+    rewrite ?st_reg_decide, ?st_charge_user, ?st_find_outdated, ?st_index_lookup, ?st_load_stale, ?st_find_stale,
+            ?st_load_breached, ?st_ask_mempool, ?st_send_act;
+    first [ apply (ob_refl G sc HC)
+          | apply (ob_delete G sc HC); has_tac
+          | apply (ob_mempool G sc HC); has_tac
+          | apply (ob_send G sc HC); has_tac
+          | apply (ob_add_tracker G sc HC); has_tac ].
+
+  Lemma g_breach_uuid_loop d us : forall inv (K : list lock -> list (N * N) -> Prop),
+    (forall i, K [] i) -> guark G [] (breach_uuid_loop_p sc d us inv) K.
+  Proof.
+    induction us as [|uuid us IH]; intros inv K HK; cbn [breach_uuid_loop_p]; [apply HK|].
+    walk; try leaf; try (apply IH; exact HK).
+  Qed.
+
+  Lemma g_breach_loop ds : forall inv (K : list lock -> list (N * N) -> Prop),
+    (forall i, K [] i) -> guark G [] (breach_loop_p sc ds inv) K.
+  Proof.
+    induction ds as [|d ds IH]; intros inv K HK; cbn [breach_loop_p]; [apply HK|].
+    walk; try leaf.
+    apply g_breach_uuid_loop. intros i. apply IH. exact HK.
+  Qed.
+
+  Section Api.
+    Context (HA : OblApi G).
+
+    Lemma g_register u (K : list lock -> out -> Prop) : (forall o, K [] o) -> guark G [] (register_p u) K.
+    Proof.
+      intros HK. unfold register_p. walk; try leaf; try apply HK.
+      - apply (ob_set_user G HA); has_tac.
+      - rewrite st_store_new_user. destruct (amem (db_users t) u) eqn:E; [apply (ob_refl G sc HC)|apply (ob_new_user G HA); [has_tac|has_tac|exact E]].
+    Qed.
+
+    Lemma g_add signer loc b delay sig (K : list lock -> out -> Prop) :
+      (forall o, K [] o) -> guark G [] (add_p sc signer loc b delay sig) K.
+    Proof.
+      intros HK. unfold add_p, add_appointment_p, add_pre_p, authenticate_p. walk; try leaf; try apply HK;
+        try (apply (ob_set_user G HA); has_tac); try (apply (ob_store_app G HA); has_tac).
+    Qed.
+
+    Lemma g_get signer loc (K : list lock -> out -> Prop) : (forall o, K [] o) -> guark G [] (get_p signer loc) K.
+    Proof. intros HK. unfold get_p, get_appointment_p, authenticate_p. walk; try leaf; try apply HK. Qed.
+  End Api.
+
+  Section Chain.
+    Context (HB : OblChain G).
+
+    Ltac leafc :=
+      rewrite ?st_update_cache, ?st_update_index, ?st_store_height;
+      first [ leaf
+            | apply (ob_forget G HB); has_tac
+            | apply (ob_delete_users G HB); has_tac
+            | apply (ob_gk_height G HB)
+            | apply (ob_w_height G HB)
+            | apply (ob_w_cache G HB); has_tac
+            | apply (ob_car_height G HB); has_tac
+            | apply (ob_car_memo G HB); has_tac
+            | apply (ob_r_index G HB); has_tac
+            | apply (ob_check_conf G HB); has_tac
+            | apply (ob_set_reorged G HB); has_tac
+            | apply (ob_trk_status G HB); has_tac ].
+
+    Lemma g_reorged_loop h us : forall rej (K : list lock -> list (N * N) -> Prop),
+      (forall r, K [L_db; L_carrier] r) -> guark G [L_db; L_carrier] (reorged_loop_p sc h us rej) K.
+    Proof.
+      induction us as [|uuid us IH]; intros rej K HK; cbn [reorged_loop_p]; [apply HK|].
+      walk; try leafc; try (apply IH; exact HK); try apply HK.
+    Qed.
+
+    Lemma g_stale_loop h us : forall rej (K : list lock -> list (N * N) -> Prop),
+      (forall r, K [L_db; L_carrier] r) -> guark G [L_db; L_carrier] (stale_loop_p sc h us rej) K.
+    Proof.
+      induction us as [|uuid us IH]; intros rej K HK; cbn [stale_loop_p]; [apply HK|].
+      walk; try leafc; try (apply IH; exact HK); try apply HK.
+    Qed.
+
+    Lemma g_gk_connect h (K : list lock -> unit -> Prop) : K [] tt -> guark G [] (gk_connect_p h) K.
+    Proof.
+      intros HK. unfold gk_connect_p. walk; try leafc; try kfin HK.
+    Qed.
+
+    Lemma g_w_connect hash txs h (K : list lock -> unit -> Prop) : K [] tt -> guark G [] (w_connect_p sc hash txs h) K.
+    Proof.
+      intros HK. unfold w_connect_p. walk; try leafc.
+      - rewrite st_update_cache. destruct (ti_update (w_cache t) (cache_block hash txs)); [apply (ob_w_cache G HB); has_tac|apply (ob_refl G sc HC)].
+      - apply g_breach_loop. intros i. walk; try leafc; try kfin HK.
+    Qed.
+
+    Ltac loop_hook ::=
+      first [ apply g_reorged_loop; intro | apply g_stale_loop; intro | apply g_breach_loop; intro | apply g_breach_uuid_loop; intro ].
+
+    Lemma g_r_connect hash txs h (K : list lock -> unit -> Prop) : K [] tt -> guark G [] (r_connect_p le sc hash txs h) K.
+    Proof.
+      intros HK. unfold r_connect_p. walk; try leafc; try kfin HK.
+      rewrite st_update_index. destruct (ti_update (r_index t) (index_block hash txs)); [apply (ob_r_index G HB); has_tac|apply (ob_refl G sc HC)].
+    Qed.
+
+    Lemma g_disconnect hash h (K : list lock -> unit -> Prop) : K [] tt -> guark G [] (disconnect_p hash h) K.
+    Proof.
+      intros HK. unfold disconnect_p. change Consts.LISTENER_ORDER with [0%Z; 1%Z; 2%Z].
+      cbn [run_listeners_p listener_disconnected_p Z.eqb]. unfold gk_disconnect_p, w_disconnect_p, r_disconnect_p, mark_reorged.
+      walk; try leafc; try kfin HK;
+        rewrite st_store_height; destruct (u32_sub h 1);
+        first [apply (ob_gk_height G HB)|apply (ob_w_height G HB)|apply (ob_refl G sc HC)].
+    Qed.
+
+    Lemma g_connect hash txs h (K : list lock -> unit -> Prop) : K [] tt -> guark G [] (connect_p le sc hash txs h) K.
+    Proof.
+      intros HK. unfold connect_p. change Consts.LISTENER_ORDER with [0%Z; 1%Z; 2%Z].
+      cbn [run_listeners_p listener_connected_p Z.eqb].
+      apply guark_bind. apply g_gk_connect. apply guark_bind. apply g_w_connect. apply guark_bind. apply g_r_connect. exact HK.
+    Qed.
+
+    Lemma g_chain evs : forall h stack (K : list lock -> unit -> Prop), K [] tt -> guark G [] (chain_p le sc h stack evs) K.
+    Proof.
+      induction evs as [|o evs IH]; intros h stack K HK; cbn [chain_p]; [exact HK|].
+      destruct o; try (apply IH; exact HK).
+      - apply guark_bind. apply g_connect. apply IH. exact HK.
+      - destruct stack as [|hash st]; [apply IH; exact HK|]. apply guark_bind. apply g_disconnect. apply IH. exact HK.
+    Qed.
+
+    Context (HA : OblApi G).
+
+    (* every action of every thread program of the quantifier satisfies G, and every program
+       returns holding no lock *)
+    Theorem g_thread t0 ops (K : list lock -> out -> Prop) : (forall o, K [] o) -> guark G [] (prog_of_thread le sc t0 ops) K.
+    Proof.
+      intros HK.
+      assert (Hop : forall o, guark G [] (prog_of_op le sc t0 o) K).
+      { intros o. destruct o; cbn [prog_of_op].
+        - apply g_register; assumption.
+        - apply g_add; assumption.
+        - apply g_get; assumption.
+        - apply HK.
+        - apply guark_bind. apply g_chain. apply HK.
+        - apply guark_bind. apply g_chain. apply HK. }
+      unfold prog_of_thread. destruct ops as [|o [|o' r]]; try apply Hop; apply guark_bind; apply g_chain; apply HK.
+    Qed.
+  End Chain.
+End Structural.
